@@ -180,3 +180,54 @@ Theorem getters_agree p l hdr pay : repr p l hdr pay -> method_getters p l /\ fn
 Proof. intros R. pose proof R as (_ & _ & _ & _ & Hwf & Hfits).
   destruct (repr_cpk p l hdr pay R) as (h0 & h1 & h2 & h3 & -> & -> & Hb & Hp).
   apply all_getters; assumption. Qed.
+
+(* ---- a getter returns the value just set ---- *)
+Lemma step_ok_inv p l hdr pay o p' : repr p l hdr pay -> op_ok o -> AF.step p o = Ok p' ->
+  exists l', op_rel l o (Done l') /\ repr p' l' hdr pay.
+Proof. intros R Hok E. pose proof (step_refines p l hdr pay o R Hok) as S. unfold refines_at in S.
+  rewrite E in S. exact S. Qed.
+
+Theorem pcr_readback p l hdr pay v p' : repr p l hdr pay -> v < PcrMax ->
+  AF.step p (AF.OSetPCR v) = Ok p' -> AF.PCR p' = Ok v /\ AFfn.PCR p' = Ok (pcr_enc v).
+Proof. intros R Hv E. destruct (step_ok_inv p l hdr pay (AF.OSetPCR v) p' R Hv E) as (l' & (u & _ & _ & D) & R').
+  cbn [spec_step] in D. destruct (isSome (l_pcr l)); [|discriminate]. injection D as ->.
+  destruct (getters_agree _ _ _ _ R') as (M & F).
+  destruct M as (_ & _ & _ & _ & _ & _ & _ & _ & _ & M & _). destruct F as (_ & _ & _ & _ & _ & _ & _ & _ & _ & F & _).
+  cbn [set_pcr l_pcr opt_res] in *. rewrite pcr_dec_enc in M by exact Hv. split; assumption. Qed.
+
+Theorem opcr_readback p l hdr pay v p' : repr p l hdr pay -> v < PcrMax ->
+  AF.step p (AF.OSetOPCR v) = Ok p' -> AF.OPCR p' = Ok v /\ AFfn.OPCR p' = Ok (pcr_enc v).
+Proof. intros R Hv E. destruct (step_ok_inv p l hdr pay (AF.OSetOPCR v) p' R Hv E) as (l' & (u & _ & _ & D) & R').
+  cbn [spec_step] in D. destruct (isSome (l_opcr l)); [|discriminate]. injection D as ->.
+  destruct (getters_agree _ _ _ _ R') as (M & F).
+  destruct M as (_ & _ & _ & _ & _ & _ & _ & _ & _ & _ & M & _). destruct F as (_ & _ & _ & _ & _ & _ & _ & _ & _ & _ & F & _).
+  cbn [set_opcr l_opcr opt_res] in *. rewrite pcr_dec_enc in M by exact Hv. split; assumption. Qed.
+
+Theorem splice_readback p l hdr pay v p' : repr p l hdr pay -> v < 256 ->
+  AF.step p (AF.OSetSplice v) = Ok p' -> AF.SpliceCountdown p' = Ok (AF.int8 v) /\ AFfn.SpliceCountdown p' = Ok v.
+Proof. intros R Hv E. destruct (step_ok_inv p l hdr pay (AF.OSetSplice v) p' R Hv E) as (l' & (u & _ & _ & D) & R').
+  cbn [spec_step] in D. destruct (isSome (l_splice l)); [|discriminate]. injection D as ->.
+  destruct (getters_agree _ _ _ _ R') as (M & F).
+  destruct M as (_ & _ & _ & _ & _ & _ & _ & _ & _ & _ & _ & M & _). destruct F as (_ & _ & _ & _ & _ & _ & _ & _ & _ & _ & _ & F & _).
+  cbn [set_splice l_splice opt_res] in *. split; assumption. Qed.
+
+(* F13: the method getter returns the data preceded by its length byte; the function-style getter the data *)
+Theorem tpd_readback p l hdr pay d p' : repr p l hdr pay -> is_bytes d ->
+  AF.step p (AF.OSetTPD d) = Ok p' ->
+  AF.TransportPrivateData p' = Ok (len d :: d) /\ AFfn.TransportPrivateData p' = Ok d /\ AFfn.EncoderBoundaryPoint p' = Ok d.
+Proof. intros R Hv E. destruct (step_ok_inv p l hdr pay (AF.OSetTPD d) p' R Hv E) as (l' & (u & _ & _ & D) & R').
+  cbn [spec_step] in D. destruct (isSome (l_tpd l)); [|discriminate]. unfold grow in D.
+  destruct (fitsb (set_tpd l (Some d))); [|discriminate]. injection D as ->.
+  destruct (getters_agree _ _ _ _ R') as (M & F).
+  destruct M as (_ & _ & _ & _ & _ & _ & _ & _ & _ & _ & _ & _ & M & _).
+  destruct F as (_ & _ & _ & _ & _ & _ & _ & _ & _ & _ & _ & _ & F1 & F2).
+  cbn [set_tpd l_tpd opt_res] in *. repeat split; assumption. Qed.
+
+Theorem ext_readback p l hdr pay d p' : repr p l hdr pay -> is_bytes d ->
+  AF.step p (AF.OSetExt d) = Ok p' -> AF.AdaptationFieldExtension p' = Ok (len d :: d).
+Proof. intros R Hv E. destruct (step_ok_inv p l hdr pay (AF.OSetExt d) p' R Hv E) as (l' & (u & _ & _ & D) & R').
+  cbn [spec_step] in D. destruct (isSome (l_ext l)); [|discriminate]. unfold grow in D.
+  destruct (fitsb (set_ext l (Some d))); [|discriminate]. injection D as ->.
+  destruct (getters_agree _ _ _ _ R') as (M & F).
+  destruct M as (_ & _ & _ & _ & _ & _ & _ & _ & _ & _ & _ & _ & _ & M).
+  cbn [set_ext l_ext opt_res] in *. exact M. Qed.
